@@ -61,6 +61,29 @@ INC_SPEC = """requires wf(*old(self)), !is_dir(*%(r)s), !is_dir(%(d)s), old(self
                          else { !reach_g(mid, %(d)s, *%(r)s) && added_edge(mid, final(self).graph@, *%(r)s, %(d)s) },
             },"""
 
+DEEP_SPEC = """requires wf(*self),
+        // the transitive-dependency query answers reachability along at least one dependency edge - as a plain reference graph would
+        ensures res == reach_g(self.graph@, *path, *target),"""
+
+DEEP__SPEC = """requires wf(*self), closed(self.graph@, old(visited)@, stack, *target), stack.subset_of(old(visited)@),
+        ensures old(visited)@.subset_of(final(visited)@), final(visited)@.contains(*path),
+            res ==> reach_g(self.graph@, *path, *target),
+            // false: every visited vertex off the search path is finished (target not among its dependencies, all of them visited)
+            !res ==> closed(self.graph@, final(visited)@, stack, *target),
+            !res && stack =~= Set::<u64>::empty() ==> !reach_g(self.graph@, *path, *target),
+        decreases unvisited(self.graph@, old(visited)@).len(),"""
+
+DEEP__LOOP = """invariant verif_i <= verif_elems.len(), wf(*self), 0 <= verif_k < self.graph@.len(), self.graph@[verif_k].id == *path, *%(n)s == self.graph@[verif_k],
+                    forall|x: u64| #![trigger %(n)s.depends_on@.contains(x)] #![trigger verif_elems@.contains(x)] %(n)s.depends_on@.contains(x) <==> verif_elems@.contains(x),
+                    !%(n)s.depends_on@.contains(*target),
+                    old(visited)@.insert(*path).subset_of(visited@), !old(visited)@.contains(*path),
+                    stack.subset_of(old(visited)@),
+                    closed(self.graph@, visited@, stack.insert(*path), *target),
+                    forall|j: int| 0 <= j < verif_i ==> visited@.contains(verif_elems@[j]),
+                decreases verif_elems.len() - verif_i,"""
+
+NOREACH = "proof { if stack =~= Set::<u64>::empty() { lemma_closed_no_reach(self.graph@, visited@, *path, *target); } }"
+
 RENAME_SPEC = """requires wf(*old(self)), !has_path(*old(self), new), new != *old_path,   // the new path is not registered yet
         ensures wf(*final(self)), final(self).graph@.len() == old(self).graph@.len(),
             // every node keeps its place; the old path is replaced by the new one as a node id and in every dependency set
@@ -215,6 +238,66 @@ def build(run):
         f.after_loop(0, "            proof { lemma_shifted(*old(self), *self, *path, verif_keys@); }")
         f.insert_at(r'let mut verif_n: usize = 0;', "        let ghost verif_mid = self.graph@;", where='before')
         f.loop_spec(1, RETAIN_LOOP)
+        unit.add(f)
+    # ---- deep_depends_on and its recursive worker (+ vacuity probes)
+    for probe in (False, True):
+        f = Snippet(g.fn('deep_depends_on', impl=r'ModuleGraph'), 'vacuity-probe ModuleGraph::deep_depends_on' if probe else 'ModuleGraph::deep_depends_on')
+        mono(f)
+        rules.strip_vis_attrs(f)
+        f.rw('R5', r'\bu64::new\((\w+)\.to_path_buf\(\)\)', r'w_renormalize(\1)', expect=2)
+        f.rw('R5', r'\bset! \{\}', 'ErgSet::new()', expect=1)
+        if probe:
+            f.rename_fn('deep_depends_on__vacuity_probe')
+            run.extra.setdefault('vacuity_probe_labels', []).append(f.label)
+        f.contract(DEEP_SPEC.split('ensures')[0] + 'ensures false,' if probe else DEEP_SPEC)
+        f.insert_inline(r'self\.deep_depends_on_\(&path, &target, &mut visited', ', Ghost(Set::<u64>::empty())')
+        unit.add(f)
+    for probe in (False, True):
+        f = Snippet(g.fn('deep_depends_on_', impl=r'ModuleGraph'), 'vacuity-probe ModuleGraph::deep_depends_on_' if probe else 'ModuleGraph::deep_depends_on_')
+        mono(f)
+        rules.strip_vis_attrs(f)
+        # R5: the visited set holds path ids instead of references to paths (lifetimes go with the references)
+        f.rw('R5', r"<'p>", '', expect=1)
+        f.rw('R5', r"&'p ", '&', expect='+')
+        f.rw('R5', r'\bSet<&u64>', 'ErgSet', expect=1)
+        f.rw('R5', r'\bvisited\.insert\(path\)', 'visited.insert(*path)', expect=1)
+        # R11a: `RECV.map(|n| { A(n) || n.depends_on.iter().any(|p| CALL(p)) }).unwrap_or(false)` is, by the definitions of Option::map /
+        # unwrap_or, short-circuit `||` and Iterator::any:  match RECV { Some(n) => { if A(n) { return true; } for p in elems { if CALL(p) { return true; } } false }, None => false }
+        pat = (r'self\s*\.get_node\(path\)\s*\.map\(\|(\w+)\| \{\s*(?P<A>[^|{};]+?)\s*\|\|\s*\1\s*\.depends_on\s*\.iter\(\)\s*'
+               r'\.any\(\|(\w+)\| self\.deep_depends_on_\(\3, target, visited\)\)\s*\}\)\s*\.unwrap_or\(false\)')
+        mm = re.search(pat, make_mask(f.text))
+        if not mm:
+            raise Undecided("ModuleGraph::deep_depends_on_: the shape `get_node(path).map(|n| { n.depends_on.contains(target) || n.depends_on.iter().any(|p| self.deep_depends_on_(p, target, visited)) }).unwrap_or(false)` was not found")
+        N, P, A = mm.group(1), mm.group(3), ' '.join(mm.group('A').split())
+        f.rw('R11a', pat, ("match self.get_node(path) { Some(%(n)s) => {\n            if %(a)s {\n                return true;\n            }\n"
+                            "            let verif_elems = w_set_elems(&%(n)s.depends_on);\n            let mut verif_i: usize = 0;\n            while verif_i < verif_elems.len() {\n"
+                            "                let %(p)s = &verif_elems[verif_i]; verif_i = verif_i + 1;\n                if self.deep_depends_on_(%(p)s, target, visited) {\n                    return true;\n                }\n            }\n"
+                            "            false\n        }, None => {\n            false\n        } }") % {"n": N, "p": P, "a": A}, expect=1)
+        if probe:
+            f.rename_fn('deep_depends_on___vacuity_probe')
+            run.extra.setdefault('vacuity_probe_labels', []).append(f.label)
+        f.insert_ghost_params('Ghost(stack): Ghost<Set<u64>>')
+        f.contract(DEEP__SPEC.split('ensures')[0] + 'ensures false,\n        decreases unvisited(self.graph@, old(visited)@).len(),' if probe else DEEP__SPEC)
+        f.insert_at(r'return false;', "            " + NOREACH, where='before', occurrence=0)
+        f.insert_at(r'Some\(%s\) => \{' % N, "            let ghost verif_k = self.index@[*path] as int;", where='after')
+        f.insert_at(r'return true;', "                proof { lemma_walk1(self.graph@, verif_k, *target); }", where='before', occurrence=0)
+        f.loop_spec(0, DEEP__LOOP % {"n": N})
+        f.insert_at(r'verif_i = verif_i \+ 1;', "                proof { lemma_unvisited_dec(self.graph@, old(visited)@, visited@, verif_k); assert(verif_elems@.contains(*%s)); }" % P, where='after')
+        f.insert_inline(r'self\.deep_depends_on_\(%s, target, visited' % P, ', Ghost(stack.insert(*path))')
+        f.insert_at(r'return true;', "                    proof { lemma_walk_prepend(self.graph@, verif_k, *%s, *target); }" % P, where='before', occurrence=1)
+        f.after_loop(0, """            proof {
+                // path is finished now: all its dependencies are visited and none is the target
+                assert forall|i: int, d: u64| 0 <= i < self.graph@.len() && visited@.contains(#[trigger] self.graph@[i].id) && !stack.contains(self.graph@[i].id) && #[trigger] self.graph@[i].depends_on@.contains(d) implies d != *target && visited@.contains(d) by {
+                    if self.graph@[i].id == *path {
+                        assert(self.index@[self.graph@[i].id] == i);
+                        assert(i == verif_k);
+                        assert(verif_elems@.contains(d));
+                        let j = choose|j: int| 0 <= j < verif_elems@.len() && verif_elems@[j] == d;
+                    }
+                }
+            }
+            %s""" % NOREACH)
+        f.insert_at(r'None => \{', "            " + NOREACH, where='after')
         unit.add(f)
     # ---- get_mut_node (+ vacuity probe)
     for probe in (False, True):
